@@ -3,7 +3,7 @@
 From Coq Require Import NArith ZArith List Bool Lia String Ascii.
 From SasLexer Require Import Gen.TokenType Gen.ErrorKind Gen.Channel Model.Base Model.Helpers Model.Numeric Model.Core Model.Buffer
      Model.Lexer3 Spec.RefLex Proofs.Generic Proofs.LexGeneric Proofs.Sorted Proofs.LexSorted Proofs.RefLexProofs Proofs.RefLexErrors Proofs.RefLexTiling Proofs.RefLexShape Proofs.RefLexRanges Proofs.RefLexCase Proofs.Tables Proofs.CaseInv
-     Proofs.Lines Proofs.LexLines Proofs.OcBase Proofs.OcWhole Proofs.OcAll.
+     Proofs.Lines Proofs.LexLines Proofs.TokLines Proofs.OcBase Proofs.OcWhole Proofs.OcAll.
 Import ListNotations.
 Open Scope N_scope.
 
@@ -263,6 +263,17 @@ Lemma mf_C04_macro_free_line_table : forall (msep : bool) (src : list char),
   b_lines b = first_line src :: starts_from 0 0 src /\ len (b_lines b) = 1 + count_nl src.
 Proof.
   intros msep src H. cbv zeta.
-  destruct (lex_lines_macro_free msep src H) as (H1 & H2 & H3 & H4).
+  destruct (lex_lines_macro_free msep src H) as (H1 & H2 & H3 & H4 & _).
   split; [exact (lex_line_table (mkCfg false msep) src H1 H2 H3 H4)|exact (lex_line_count (mkCfg false msep) src H1 H2 H3 H4)].
+Qed.
+
+(** C04: [C04_macro_free_token_lines]: the start line of every token on every macro-free text *)
+Lemma mf_C04_macro_free_token_lines : forall (msep : bool) (src : list char),
+  macro_free (body_of src) = true ->
+  forall t, In t (b_toks (lr_buffer (lex (mkCfg false msep) src))) ->
+  forall pre rest, src = pre ++ rest -> blen pre = t_byte t -> t_line t = count_nl pre.
+Proof.
+  intros msep src H.
+  destruct (lex_lines_macro_free msep src H) as (H1 & H2 & _ & _ & H5).
+  exact (lex_token_lines (mkCfg false msep) src H1 H2 H5).
 Qed.
